@@ -43,7 +43,8 @@ EXPLANATION = (
     "asyncio.wait_for(..., timeout=self.timeout); from a successful connection every path to "
     "any exit closes the transport. (E5/E6) sibling agreement and chunk non-interference. "
     "(E1b) connection_lost evaluated abstractly with exc set, or a clean close before any header, ends in set_exception on every feasible path. (E6) The C07.S3 segmentation rule set on both client data_received methods, including limit consistency between unterminated buffer and complete line. "
-    "(E1, ctors) a package constructor's raise-set is what its __init__/__post_init__ raises."
+    "(E1, ctors) a package constructor's raise-set is what its __init__/__post_init__ raises. "
+    "(E2, type) the receive buffer is an immutable bytes value (a binary body is handed out as bytes)."
 )
 
 PROTOS = ["client.protocol:GeminiClientProtocol", "client.protocol:TitanClientProtocol"]
